@@ -52,6 +52,8 @@ def gen(item, rng, tier):
             cur = max(base, cur - rng.randrange(1, min(8, s) + 1))
         fill = bytes(rng.getrandbits(8) for _ in range(min(s, 64)))
         d = {'begin': cur, 'end': cur + s, 'fill': fill.hex()}
+        if rng.random() < 0.2:
+            d['rec'] = 1
         if rng.random() < 0.08:
             # the controller window and the device behind it need not have the same size
             d['ram_size'] = max(1, s + rng.choice([-3, -1, 1, 4, 16]))
@@ -201,7 +203,9 @@ def run(case):
             arm.mem.add_memory('RAM', d['begin'], d['end'])
             ram = arm.mem.memories[-1].mem
         else:
-            ram = RAM(d.get('ram_size', d['end'] - d['begin']))
+            # a fifth of the devices record the device-level calls they receive (a device need not be a RAM: for a latch or a read-to-clear register
+            # a store that first reads, or that is skipped because the bytes already match, is a different access)
+            ram = (M.RecRAM if d.get('rec') else RAM)(d.get('ram_size', d['end'] - d['begin']))
             arm.mem.memories.append(MemoryController(ram, d['begin'], d['end']))
         if d.get('fill'):
             f = _fill(d)
@@ -291,6 +295,10 @@ def run(case):
         i = model.find(addr)
         straddle = i is not None and addr + size > model.devs[i][1]
         got = None
+        prim = None
+        for x in rams:
+            if hasattr(x, 'log'):
+                del x.log[:]
         try:
             if path == 'hub':
                 desc = AddressDescriptor()
@@ -302,6 +310,7 @@ def run(case):
                     arm.mem[desc, size] = op['value']
                 if idx % 3 == 0:
                     # the caller's descriptor is an input: used again, unchanged, it must name the same bytes
+                    prim = {id(x): len(x.log) for x in rams if hasattr(x, 'log')}
                     again = arm.mem[desc, size]
                     first = got if op['op'] == 'r' else None
                     i0 = model.find(addr)
@@ -406,6 +415,24 @@ def run(case):
                         stop = True
                         break
         if stop:
+            break
+        # device-level calls of recording devices: a store reaches the device as write calls only (and does reach it), a load as read calls only
+        bad = None
+        for j, x in enumerate(rams):
+            if not hasattr(x, 'log') or path == 'insn' and False:
+                continue
+            calls = x.log[:prim[id(x)]] if prim else x.log           # (without the harness's own re-read through the same descriptor)
+            kinds = set(e[2] for e in calls)
+            if op['op'] == 'w' and 0 in kinds:
+                bad = (j, 'store_read_the_device')
+            elif op['op'] == 'r' and 1 in kinds:
+                bad = (j, 'load_wrote_the_device')
+            elif op['op'] == 'w' and j in touched and not calls and all(t == j for t in touched) and \
+                    (addr - model.devs[j][0]) + size <= len(model.devs[j][2]) and 'multi' not in op:
+                bad = (j, 'store_never_reached_the_device')
+        if bad:
+            viol.append({'oracle': 'hub.model', 'site': path + ':' + op['op'], 'cls': bad[1], 'tick': idx,
+                         'detail': 'device %d: %s size %d at %#x produced device calls %s' % (bad[0], op['op'], size, addr, rams[bad[0]].log[:4])})
             break
         i = touched[0] if len(set(touched)) == 1 else -1
         if not check_all(op, idx, i):
